@@ -60,11 +60,11 @@ CLAIMS = {
     "C05": ("other",
             "information-flow over E3 summary terms (reference-time dependence per returned "
             "field and per path condition), sibling comparison of two-digit-year maps, "
-            "field-name provenance, month-name lexicon through the pattern automata",
+            "field-name provenance, month-name lexicon through the pattern automata, listed spellings matched whole in the engine's priority order (preferred-match over the pattern syntax tree)",
             "Decides: no production mixes reference-time-dependent fields with written ones or "
             "branches on the reference time for a written value (except the bare-year two-digit "
             "branch and the military-time heuristic, located by role); sibling agreement on "
-            "two-digit years; field names; month names -> month numbers. One known finding "
+            "two-digit years; field names; month names -> month numbers; no listed month spelling is cut short by an earlier alternative that is its prefix. One known finding "
             "(two-digit-year siblings disagree) is listed in known_findings.jsonl.",
             "Not decided: that all notations select the same candidate (ranking); regex coverage "
             "of every notation.",
@@ -74,7 +74,7 @@ CLAIMS = {
             "quarter/half maps; latent anchoring vs specification over the sweep; number-word "
             "lexicon through the pattern automata",
             "Decides: am/pm piecewise map (12 am = 0, pm adds 12 below 12), quarter/half maps and "
-            "their minute guard, latent clock anchoring strictly after the reference minute and "
+            "their minute guard, the am/pm marker as the code reads it when the pattern lets its group take a leading blank, latent clock anchoring strictly after the reference minute and "
             "skipped with the option off, named hours one..twelve / eins..zwölf, hour-in-part-of-day "
             "keeps minute and hour mod 12.",
             "Not decided: that each notation's regex accepts each of the 1440 minutes; ranking.",
@@ -100,7 +100,7 @@ CLAIMS = {
             "Not decided: the value of date + N units (dateutil's calendar arithmetic).",
             "DESIGN.md §4 C08"),
     "C09": ("proof",
-            "regex edge-set analysis (can a pattern begin/end on a blank) + dataflow of the span "
+            "regex edge-set analysis (can a pattern begin/end on a blank) + preferred-match of listed spellings + dataflow of the span "
             "trimming in RegexMatch.__init__ + span provenance through wrapper and latent layer",
             "Decides the span clauses and necessary conditions: blank-free spans, span = union of "
             "consumed matches, span carried through latent rewrites, length term depends on the "
@@ -109,7 +109,7 @@ CLAIMS = {
             "DESIGN.md §4 C09"),
     "C10": ("proof",
             "automata comparison of the label find/strip languages on the valid-tag domain + "
-            "def-use comparison of the two subject/label derivations + orderedness typing",
+            "comparison of the provenance terms (normalise / substitute / strip / split / filter / join) of the two subject/label derivations, read off an inlined and normalised view of the module + orderedness typing",
             "Decides: find and strip agree on valid hashtags, one derivation for the match and "
             "no-match paths on the normalised text, subject built order-preservingly from the "
             "split words, labels in text order, labels never reach matcher or subject.",
@@ -118,7 +118,7 @@ CLAIMS = {
     "C11": ("proof",
             "character-class semantics of the two substitution patterns compared with the stated "
             "Unicode categories code point by code point; idempotence by class reasoning; "
-            "ignore-case flag of every cased pattern atom",
+            "ignore-case flag of every cased pattern atom (group calls followed into their definitions); the substitution chain read off the provenance term of the normaliser's return value",
             "Decides: separator and dash classes equal the stated categories (quick: BMP + samples; "
             "thorough: all 0x110000 code points), run collapse, replacements, strips, idempotence, "
             "only normalised text reaches the matcher, every cased atom case-insensitive.",
@@ -135,14 +135,14 @@ CLAIMS = {
     "C13": ("proof",
             "control-flow analysis of the search loop: must-pass-through of the deadline closure "
             "per iteration of every sequence-indexed loop, handler containment, information flow "
-            "of timeout/closure, abstract interpretation of the closure",
+            "of timeout/closure, abstract interpretation of the closure, the elapsed time as <clock> - START with START fixed",
             "Decides: a deadline check before the work in every iteration of every loop over the "
             "candidate sequences (and in the enumeration), every check inside the timeout handler, "
-            "timeout/closure reach no yielded value, timeout 0 never raises and a positive one can.",
+            "timeout/closure reach no yielded value, timeout 0 never raises and a positive one can, the deadline is measured from the creation of the closure.",
             "Not decided: the duration of one uninterruptible step.",
             "DESIGN.md §4 C13"),
     "C14": ("proof",
-            "recognition of the best-score selection idiom, evaluation of the emptiness guard and "
+            "provenance term of the returned candidate (max / sorted-last over list(stream), however spelled), evaluation of the emptiness guard and "
             "of the re-emission guards on all orderings, signature comparison",
             "Decides: returned element is a max-score element of list(stream), empty result iff "
             "empty stream, options forwarded with equal defaults, re-emission only on strictly "
@@ -159,7 +159,7 @@ CLAIMS = {
             "semantics.",
             "DESIGN.md §4 C15"),
     "C17": ("proof",
-            "shape of the label expression + symbolic evaluation of the sample loop bounds + "
+            "shape of the label expression + constant propagation of the sample-emitting loop body on marker traces of length 0..6 + "
             "value-equality of the resolution classes + def-use in the training script",
             "Decides: label = value equality with the gold annotation, one sample per trace prefix "
             "1..n with that label, trainer fed unchanged.",
@@ -167,15 +167,15 @@ CLAIMS = {
             "DESIGN.md §4 C17"),
     "C18": ("proof",
             "abstract interpretation of the constructor chains (equality/hash attribute list vs "
-            "constructor value fields) + printer/parser field, width and offset agreement via the "
-            "parser pattern's automaton",
+            "constructor value fields; __eq__ interpreted on two abstract instances) + printer templates (any mix of format / f-strings) against the parser's groups and widths via the "
+            "parser pattern's automaton + constant propagation of parse_nb_string / Interval.from_str / Duration.from_str on the printed templates",
             "Decides: equality and hash by value fields only (no span), dynamic type compared, "
             "printed forms accepted by the parser with fields in the same positions and widths, "
             "separator and absent marker unambiguous, prefix offsets of parse_nb_string.",
             "Not decided: injectivity outside the C02 field ranges.",
             "DESIGN.md §4 C18"),
     "C19": ("proof",
-            "syntax-tree checks of the rule module and rule._map + regex-tree width analysis "
+            "syntax-tree checks of the rule module, the pattern registration constant-propagated on fresh and already registered texts (id allocation) + regex-tree width analysis "
             "+ shape fixpoint (dead rules, part-of-day closure) + pickle opcode reader",
             "Decides every clause: unique names, registration, non-nullable patterns, no "
             "adjacent regexes, id sharing, rules not dead, part-of-day closure, model "
